@@ -135,7 +135,7 @@ def sk_items(F, b, opaque, ren=None, param_terms=None):
             add("upd:%s:%s" % (tagname(n["l"]["name"]), n["op"]), W.T.term(n["r"]), W)
         elif k == "Assign" and n["l"].get("k") == "Path" and n["l"].get("res") == "local":
             add("set:%s" % tagname(n["l"]["name"]), W.T.term(n["r"]), W)
-        elif k == "MethodCall" and n["name"] in ("push", "resize", "saturating_sub", "div_ceil", "min", "max"):
+        elif k == "MethodCall" and n["name"] in ("push", "resize", "saturating_sub", "div_ceil"):
             items.add(("call:" + n["name"], tuple(repr(normalize(canon(W.expand(W.T.term(a))))) for a in n["args"])))
     W = Walker(F, b, on_node=on_node)
     if opaque == "all-lets":
@@ -180,6 +180,8 @@ def unified_skeletons(F, bodies, opaque, param_terms=None, reference=None):
     in all of them -- changes nothing."""
     pts = param_terms or [None] * len(bodies)
     refs = [set(_tuplify(r)) for r in reference] if reference and len(reference) == len(bodies) else [None] * len(bodies)
+    # min/max are operators of the terms whatever their syntax (`a.min(b)`, `min(a, b)`): no item of their own
+    refs = [set(x for x in r if not (isinstance(x, tuple) and x and isinstance(x[0], tuple) and x[0] and isinstance(x[0][0], str) and x[0][0] in ("call:min", "call:max"))) if r is not None else None for r in refs]
 
     def own(b, pt, ref):
         # the sibling with its locals renamed to the names they had in its recorded skeleton
